@@ -542,7 +542,59 @@ func (rg *Range) loopVerdict(l *Loop) (bool, string) {
 			return true, "consuming loop: exits when the String is empty; every iteration reads at least one byte"
 		}
 	}
-	return false, "loop matches no terminating shape (counted with monotone step and invariant bound, range, or consuming reader loop)"
+	// shape D: a shrinking slice: a header phi p of slice type whose every
+	// in-loop edge is p[n:] with n >= 1 there, and an exit test on len(p)
+	for _, in := range h.Instrs {
+		ph, ok := in.(*ssa.Phi)
+		if !ok {
+			break
+		}
+		if _, isSlice := ph.Type().Underlying().(*types.Slice); !isSlice {
+			continue
+		}
+		shrinks, steps := true, 0
+		for i, e := range ph.Edges {
+			if !l.Blocks[h.Preds[i]] {
+				continue
+			}
+			steps++
+			sl, ok := e.(*ssa.Slice)
+			if !ok || sl.X != ssa.Value(ph) || sl.Low == nil || sl.High != nil {
+				shrinks = false
+				break
+			}
+			st, ok := rg.stepLin(sl.Low)
+			if !ok || !rg.entails(rg.factsAt(h.Preds[i]), st.addConst(-1)) {
+				shrinks = false
+				break
+			}
+		}
+		if !shrinks || steps == 0 {
+			continue
+		}
+		for b := range l.Blocks {
+			ifi, ok := b.Instrs[len(b.Instrs)-1].(*ssa.If)
+			if !ok || (l.Blocks[b.Succs[0]] && l.Blocks[b.Succs[1]]) {
+				continue
+			}
+			bo, ok := ifi.Cond.(*ssa.BinOp)
+			if !ok {
+				continue
+			}
+			isLenP := func(v ssa.Value) bool {
+				c, ok := v.(*ssa.Call)
+				if !ok {
+					return false
+				}
+				bi, ok := c.Call.Value.(*ssa.Builtin)
+				return ok && bi.Name() == "len" && c.Call.Args[0] == ssa.Value(ph)
+			}
+			if (isLenP(bo.X) && loopInvariant(bo.Y, l)) || (isLenP(bo.Y) && loopInvariant(bo.X, l)) {
+				return true, "shrinking-slice loop on " + ph.Comment + " (every iteration drops at least one byte; exit test on its length)"
+			}
+		}
+	}
+	return false, "loop matches no terminating shape (counted with monotone step and invariant bound, range, consuming reader loop, or shrinking slice)"
 }
 
 // stepLin: linear form of a loop step, with a lower bound for
